@@ -42,6 +42,10 @@ IdRendering == IdRenderings[((Len(added) + Len(hist) + start) % 3) + 1]
 \* over as numpy integers: forms of the same calls.)
 EntryForms == <<"factory", "constructor", "constructor_str">>
 EntryForm == EntryForms[((Len(added) + 2 * Len(hist) + start) % 3) + 1]
+\* What the trajectories of a behaviour carry in their float scalars: ordinary numbers, or ("nan_scalar") NaN in one of
+\* the required ones of payload 2 - NaN is a value: such a trajectory is added, stored and read back
+PayloadForms == <<"plain", "nan_scalar">>
+PayloadForm == PayloadForms[((Len(hist) + start) % 2) + 1]
 Rec == [ev |-> last', n |-> Len(added'), ix |-> indexable']
 GNext == Next /\ hist' = Append(hist, Rec) /\ UNCHANGED start
 GSpec == GInit /\ [][GNext]_gvars
@@ -116,10 +120,10 @@ FamNext == IF Len(hist) < Len(Prologue(start)) THEN Do(Prologue(start)[Len(hist)
 FNext == FamNext /\ hist' = Append(hist, Rec) /\ UNCHANGED start
 FSpec == GInit /\ [][FNext]_gvars
 FEmit == IF Len(hist) < Len(Prologue(start)) + D THEN TRUE
-         ELSE PrintT("@@" \o ToJson([h |-> hist, start |-> Base(start), flavour |-> Flavour(start), idr |-> IdRendering, entry |-> EntryForm, added |-> added, disk |-> disk,
+         ELSE PrintT("@@" \o ToJson([h |-> hist, start |-> Base(start), flavour |-> Flavour(start), idr |-> IdRendering, entry |-> EntryForm, payload |-> PayloadForm, added |-> added, disk |-> disk,
                                       open |-> (mode # "closed"), exists |-> exists])) /\ FALSE
 
-Out == [h |-> hist, start |-> start, flavour |-> Flavour(start), idr |-> IdRendering, entry |-> EntryForm, added |-> added, disk |-> disk, open |-> (mode # "closed"), exists |-> exists]
+Out == [h |-> hist, start |-> start, flavour |-> Flavour(start), idr |-> IdRendering, entry |-> EntryForm, payload |-> PayloadForm, added |-> added, disk |-> disk, open |-> (mode # "closed"), exists |-> exists]
 Emit == IF Len(hist) < D THEN TRUE
         ELSE PrintT("@@" \o ToJson(Out)) /\ FALSE
 =============================================================================
